@@ -21,7 +21,7 @@ inductive Res (α : Type) where
   | ok (a : α)
   | err (cls : String)
   | panic
-deriving Repr, Inhabited
+deriving Repr, Inhabited, DecidableEq
 
 instance : Monad Res where
   pure := Res.ok
@@ -45,7 +45,7 @@ structure Msg where
   seq : Nat
   raw : Bytes
   offset : Int    -- unexported; observed only through Data()
-deriving Repr, Inhabited
+deriving Repr, Inhabited, DecidableEq
 
 /-- time.Unix(sec, nsec): normalise nsec into [0, 1e9) with int64 wrap-around. -/
 def timeUnix (sec nsec : Int) : Int × Int :=
